@@ -65,16 +65,17 @@ def dom_nodes(g):
 
 def r01a(chk, rid='R01.a'):
     chk.rule(rid, 'log-mode window: in CSSParser.parseString/parseStyle every path from entry to a statement that constructs or drives a DOM object passes __parseSetting(True); parseFile/parseUrl touch the DOM only through parseString')
-    from .c12 import FLAG, switch_effect, switch_methods
+    from .c12 import FLAG, context_switches, switch_effect, switch_methods, with_switch
 
     switches = switch_methods(chk.repo.mod(PARSE))
+    ctx = context_switches(chk.repo.mod(PARSE), switches)
     for name in ('parseString', 'parseStyle'):
         fn = chk.repo.fn(PARSE, f'CSSParser.{name}')
         g = cfgmod.CFG(fn)
         targets = dom_nodes(g)
         if not targets:
             raise AnalysisError(f'CSSParser.{name}: no DOM construction found')
-        on = lambda n: any(switch_effect(switches, c) == 'on' for c in cfgmod.calls_at(n)) or (  # noqa: E731
+        on = lambda n: with_switch(ctx, n) or any(switch_effect(switches, c) == 'on' for c in cfgmod.calls_at(n)) or (  # noqa: E731
             n.kind == 'stmt' and isinstance(n.stmt, ast.Assign) and text(n.stmt.targets[0]) == FLAG and '__parseRaising' in text(n.stmt.value))
         if not any(on(n) for n in g.nodes):
             chk.ob(rid, PARSE, f'CSSParser.{name}', 'switches to the parse error mode', False, '__parseSetting(True) is never called')
